@@ -201,7 +201,7 @@ pub fn add_sections(rep: &mut Report, prop: &str, thorough: bool, conformant_onl
     let key_pub = KeyPub { alg: Alg::Ed25519, raw };
     {
         let sec = Section::new("csr/levels", "all CSR states with exactly k non-default dimensions (dn, sans, key_usages, ekus, custom_exts, attribute lists of <= 2 over 5 atoms)").with_deadline(cap);
-        run::levels(&sec, &space, if thorough { 6 } else { 4 }, &|c, _| judge(prop, &known, c, &key, &key_pub));
+        run::levels(&sec, &space, if thorough { 5 } else { 4 }, &|c, _| judge(prop, &known, c, &key, &key_pub));
         rep.add(sec);
     }
     {
